@@ -15,15 +15,15 @@ def T(pid, technique, text, note, ref):
 
 GEN = "bounded exhaustive enumeration on the real implementation"
 T("C01", f"{GEN}: every model of the families x every in-bounds assignment; row feasibility vs evaluated top",
-  "All models of the stated families (depth<=2(3), <=2(3) children, both signs, every relevant threshold, explicit/generated ids, diamond DAGs, 16-bit leaves by region alphabet) and all their in-bounds assignments are executed; the coverage statement is 'no model inside the bound violates C01'.",
+  "All models of the stated families (depth<=2(3), <=2(3) children, both signs, every relevant threshold, explicit/generated ids, diamond DAGs, 16-bit and wider leaves by region alphabet) and all their in-bounds assignments are executed; the coverage statement is 'no model inside the bound violates C01'.",
   "trusted: the reference truth function (mc/ref.py), numpy; assumes errors() as filter (C10); beyond the bound nothing is claimed", "4/C01")
-T("C03", f"{GEN}: every model x every total interpretation x value form x <=2 id overrides vs arithmetic truth function",
+T("C03", f"{GEN}: every model x every total interpretation x value form x <=2 id overrides vs arithmetic truth function; objects returned by negate / Not / Imply / reduce vs the arithmetic of the live object",
   "Every node value of every model/interpretation/override inside the bound is compared with an independent bottom-up reference.",
   "trusted: mc/ref.py truth(); filter errors()==[]", "4/C03")
-T("C04", f"{GEN}: every connective formula to depth 2 (+negation closure) built 3 ways + cicJE grammar x all 0/1 assignments",
+T("C04", f"{GEN}: every connective formula to depth 2 (+negation closure, same-id arguments) built up to five ways (puan.variable / str / one-shot iterators / JSON parsed twice / subclass leaves) + cicJE grammar x all 0/1 assignments",
   "Complete truth tables of every formula inside the bound are compared with boolean semantics written directly on booleans.",
   "trusted: mc/ref.py connective(); independent JSON writer in c04.py", "4/C04")
-T("C02", f"{GEN}: every model with <=14 polyhedron columns x ALL integer points of the column box; lost / spurious leaf parts",
+T("C02", f"{GEN}: every model with <=14 polyhedron columns x ALL integer points of the column box (region grid for columns wider than 22 values, up to 31-bit leaves); lost / spurious leaf parts",
   "All integer points of the column box of every model inside the bound are classified; no satisfying assignment lost, and for solver-safe structures no spurious point.",
   "trusted: mc/ref.py; solver-safe judged on the real object structure", "4/C02")
 T("C05", f"{GEN}: negate / Not / double negation edges from every state x every assignment; exact complement, solver-safe, id kept",
@@ -65,7 +65,7 @@ T("C15", f"{GEN}: every model/configurator x objective alphabet x solver answers
 T("C16", f"{GEN}: JSON round-trip edge (twice) from every raw / connective / configurator state; truth tables, ids, defaults, polyhedron modulo generated names",
   "Every state inside the bound is serialised, passed through json.dumps/loads, reloaded and compared with the reference truth of the original on all assignments.",
   "trusted: mc/ref.py; canonical renaming of generated ids in c16.py", "4/C16")
-T("C09", "explicit-state exploration of call histories on the real objects: every call sequence of length <=2 (<=3) over ~180 API calls, each replayed in a child forked from a pristine parent; differential oracle vs pristine observations + deep fingerprints",
+T("C09", "explicit-state exploration of call histories on the real objects: every call sequence of length <=2 (<=3) over ~250 API calls (incl. calls on library-derived objects), each replayed in a child forked from a pristine parent; differential oracle vs pristine observations + deep fingerprints",
   "All call sequences inside the bound over a world of aliased models and equal-but-different configurators are executed; every observation is compared with the pristine process and every transition must leave all object fingerprints unchanged.",
   "trusted: fork() isolation, fingerprint walker (mc/fingerprint.py); cache fill levels are hidden state; open finding D3 is matched by a defect model (see known_findings.json)", "4/C09")
 T("C17", f"{GEN}: base64 round-trip edge (twice) from every proposition / configurator / configurator polyhedron state; deep fingerprint + query menu",
